@@ -966,15 +966,8 @@ def run(ctx):
                 ctx.violation('response_not_ok', f'request {rid}: the response does not state what was computed '
                                                  f'(validator response_ok = false)', sc, obs=o, response=resp)
             if g != 'G:T':
-                model = g[4:]
-                if g.startswith('G:F:'):
-                    try:
-                        model = unrender(g[4:])
-                        model = json.loads(json.dumps(model, default=lambda q: float(q)))
-                    except Exception:
-                        pass
-                ctx.corr_break('corr:Response.pathresult', f'request {rid}: model response differs', sc,
-                               impl=resp, model=model)
+                ctx.corr_break('corr:Response.pathresult', f'request {rid}: model response differs at {g[4:][:300]}', sc,
+                               impl=resp, model=g[:400])
             if row is not None:
                 ctx.count('csv_rows')
                 if skips:
